@@ -2,13 +2,18 @@
 import json, os, re
 from .common import *
 
-REPLAY_CRATE = os.path.join(VERIF, "replay")
-REPLAY_TARGET = os.path.join(BUILD, "replay-target")
+REPLAY_SRC = os.path.join(VERIF, "replay")
+REPLAY_CRATE = os.path.join(BUILD, "replay-" + REPO_TAG)
+REPLAY_TARGET = os.path.join(BUILD, "replay-target" + ("" if REPO_TAG == "main" else "-" + REPO_TAG))
 
 
 def _run_native(bin_name, args, features=None, timeout=900):
     """build + run a binary of /verif/replay (path dependency on /repo/sylvia) natively"""
     import shutil
+    shutil.rmtree(REPLAY_CRATE, ignore_errors=True)
+    shutil.copytree(REPLAY_SRC, REPLAY_CRATE, ignore=shutil.ignore_patterns("target", "Cargo.lock"))
+    tp = os.path.join(REPLAY_CRATE, "Cargo.toml")
+    open(tp, "w").write(open(tp).read().replace('path = "/repo/sylvia"', 'path = "%s/sylvia"' % REPO))
     shutil.copyfile(os.path.join(REPO, "Cargo.lock"), os.path.join(REPLAY_CRATE, "Cargo.lock"))
     cmd = ["cargo", "run", "--offline", "--quiet", "--release", "--bin", bin_name]
     if features:
@@ -18,17 +23,76 @@ def _run_native(bin_name, args, features=None, timeout=900):
     return rc, so, se, wall
 
 
+_playbacks_done = 0
+
+
+def kani_playback(feature, harness):
+    """Kani concrete playback: obtain the counterexample as a unit test, run it natively against the real code."""
+    import shutil
+    from . import kani_engine as K
+    K.generate()
+    cmd = ["cargo", "kani", "--features", feature, "-Z", "stubbing", "-Z", "unstable-options", "-Z", "concrete-playback", "--concrete-playback=print",
+           "--harness-timeout", "900s", "--output-format", "terse", "--harness", harness]
+    rc, so, se, wall = sh(cmd, cwd=K.KX, timeout=1500, env=env_offline({"CARGO_TARGET_DIR": K.KTARGET}))
+    m = re.search(r"```\n(.*?#\[test\].*?)```", so, re.S)
+    if not m:
+        return {"reproduced": False, "method": "kani --concrete-playback=print produced no test", "stdout": so[-1500:]}
+    test_src = m.group(1)
+    tname = re.search(r"fn (kani_concrete_playback_\w+)", test_src).group(1)
+    vals = re.findall(r"^\s*// (.+)$", test_src, re.M)
+    # copy the harness crate, append the test to the module that holds the harness, run natively
+    dst = os.path.join(BUILD, "playback", "kx")
+    shutil.rmtree(dst, ignore_errors=True)
+    shutil.copytree(K.KX, dst, ignore=shutil.ignore_patterns("target"))
+    placed = False
+    for root, _, files in os.walk(os.path.join(dst, "src")):
+        for f in files:
+            p = os.path.join(root, f)
+            t = open(p).read()
+            if re.search(r"fn %s\(\)" % re.escape(harness), t):
+                i = t.rstrip().rfind("}")
+                t = t[:i] + "\n" + test_src + "\n}\n"
+                open(p, "w").write(t)
+                placed = True
+    if not placed:
+        return {"reproduced": False, "method": "harness source not found for playback"}
+    cmd2 = ["cargo", "kani", "playback", "-Z", "concrete-playback", "--features", feature, "--", tname]
+    rc2, so2, se2, wall2 = sh(cmd2, cwd=dst, timeout=1500, env=env_offline({"CARGO_TARGET_DIR": os.path.join(BUILD, "playback-target")}))
+    out = so2 + se2
+    shutil.rmtree(dst, ignore_errors=True)
+    failed = bool(re.search(r"test result: FAILED|panicked at", out))
+    passed = bool(re.search(r"test result: ok\. 1 passed", out))
+    out = "\n".join(l for l in out.splitlines() if re.search(r"panicked|assert|^test |test result|left:|right:", l))
+    res = {"method": "Kani concrete playback: the counterexample as a unit test, run natively against the real crates (cargo kani playback)",
+           "concrete_values_in_order_of_kani_any": vals[:64], "unit_test": test_src[:6000], "native_output": out[-2500:], "wall_s": round(wall + wall2, 1)}
+    if failed:
+        res["reproduced"] = True
+    elif passed:
+        res["reproduced"] = False
+        res["spurious"] = True
+    else:
+        res["reproduced"] = False
+        res["error"] = "native playback did not run"
+    return res
+
+
 def attempt(prop, ob):
     """-> dict(reproduced=bool, spurious=bool, input=..., output=...)"""
+    global _playbacks_done
     try:
         if ob.engine in ("K", "G", "KT") and ob.extra.get("playback"):
             return ob.extra["playback"]
+        if ob.engine in ("K", "G") and ob.extra.get("harness"):
+            if _playbacks_done >= 3:
+                return {"reproduced": False, "method": "concrete playback limited to 3 refutations per run; see the other replay files of this run"}
+            _playbacks_done += 1
+            return kani_playback(ob.extra["feature"], ob.extra["harness"])
         if prop == "C05" and ob.engine == "V":
             rc, so, se, wall = _run_native("replay_c05", [])
             m = re.search(r"^COUNTEREXAMPLE (.*)$", so, re.M)
             if m:
                 return {"reproduced": True, "method": "native enumeration of small name-list tuples against the real sylvia::utils::assert_no_intersection (catch_unwind) vs a direct O(n^2) disjointness test",
-                        "input": json.loads(m.group(1)), "cmd": "cd /verif/replay && cargo run --offline --release --bin replay_c05", "wall_s": round(wall, 1)}
+                        "input": json.loads(m.group(1)), "cmd": "./check C05 --replay <this file>  (runs /verif/replay bin replay_c05 against the repository)", "wall_s": round(wall, 1)}
             return {"reproduced": False, "method": "native enumeration found no failing tuple within its bound", "stdout": so[-1500:], "stderr": se[-1500:]}
         if prop == "C11" and ob.engine == "V":
             feats = []
